@@ -240,6 +240,12 @@ int main(void)
 			/* p.parse HEX | chunk sizes…   (p.lines: also the unfolded lines the parser acted upon) */
 			int bar = 2;
 			do_parse(toks[1], toks + (ntk > bar ? bar + 1 : ntk), ntk > bar + 1 ? ntk - bar - 1 : 0, 4, !strcmp(toks[0], "p.lines"));
+		} else if (!strcmp(toks[0], "y.snarfshift") && ntk >= 2) {
+			/* y.snarfshift HEX(text behind SHIFT=) : snarf_shift() */
+			static char txt[4096]; size_t len = 0;
+			for (char *h = toks[1]; h[0] && h[1] && len + 1 < sizeof(txt); h += 2) { unsigned v; sscanf(h, "%2x", &v); txt[len++] = (char)v; }
+			txt[len] = 0;
+			printf("%d\n", (int)snarf_shift(txt));
 		} else if (!strcmp(toks[0], "r.parse") && ntk >= 2) {
 			/* r.parse HEX(rule text without the RRULE: prefix) : the rule as snarf_rrule() reads it */
 			static char txt[65536]; size_t len = 0;
